@@ -549,6 +549,17 @@ protocol::Manifest evil_manifest(Rng& r, const ChunkId& id, int kind) {
         case 6: m.shards.clear(); m.threshold = 0; break;
         case 7: for (auto& s : m.shards) { s.index = 7; s.value.fill(0); } break;                 // all duplicates, zero values
         case 8: m.metadata["filename"] = std::string(60000, '/'); break;
+        // every length-prefixed field exactly at the limit of its prefix, and the counts at 255 (all decodable)
+        case 10: m.metadata[std::string(255, 'k')] = "v"; break;
+        case 11: m.metadata["k"] = std::string(65535, 'v'); break;
+        case 12: m.discovery_hints.push_back({std::string(255, 's'), "tcp", "203.0.113.9:1", 1}); break;
+        case 13: m.discovery_hints.push_back({"transport", std::string(255, 't'), "203.0.113.9:1", 1}); break;
+        case 14: m.discovery_hints.push_back({"transport", "tcp", std::string(65535, 'e'), 1}); break;
+        case 15: m.fallback_hints.push_back({std::string(65535, 'u'), 1}); break;
+        case 16: m.security.advisory = std::string(65535, 'a'); break;
+        case 17: for (int i = 0; i < 255; ++i) m.metadata["k" + std::to_string(i)] = "v"; break;
+        case 18: for (int i = 0; i < 255; ++i) m.discovery_hints.push_back({"transport", "tcp", "203.0.113.9:" + std::to_string(i), static_cast<std::uint8_t>(i)}); break;
+        case 19: for (int i = 0; i < 255; ++i) m.fallback_hints.push_back({"control://203.0.113.9:" + std::to_string(i), static_cast<std::uint8_t>(i)}); break;
         default: m.threshold = 3; m.shards[2].index = m.shards[0].index; break;                   // duplicate among the used ones
     }
     return m;
@@ -618,9 +629,13 @@ void c35t_case(Ctx& c, Rng& r) {
         m.version = static_cast<std::uint8_t>(1 + r.below(4));
         if (k <= 2) {
             // ANNOUNCE carrying an adversarial manifest, then the CHUNK that makes the node use it
-            const auto em = evil_manifest(r, cid, static_cast<int>(r.below(10)));
-            std::string uri;
-            try { uri = protocol::encode_manifest(em); } catch (...) { continue; }
+            const int ekind = static_cast<int>(r.below(20));
+            const auto em = evil_manifest(r, cid, ekind);
+            // serialised by the harness, as a foreign implementation would: nothing here depends on the node's own encoder
+            const auto enc_uri = genm::ref_encode(em);
+            if (!enc_uri) continue;
+            const std::string uri = *enc_uri;
+            if (ekind >= 10) c.note("transport.manifest-fields-at-prefix-limit");
             m.version = 4;
             m.type = protocol::MessageType::Announce;
             protocol::AnnouncePayload ap{};
